@@ -1,11 +1,11 @@
-"""C04 - arguments are bound per the lambda list; arity errors match the documentation.
-(draft: the documented-arity half; the binding half is generated by LambdaList.tla)"""
+"""C04 - arguments are bound per the lambda list; arity errors match the documentation."""
 import json, os, subprocess
 
-from lib import common, pipeline
+from lib import common, gen, pipeline
 
 PROP = "C04"
 SPEC = os.path.join(common.VERIF, "spec", "LambdaList")
+ARITY_FEATURE = "documented-arity-mismatch"
 
 
 def sweep(vdrive):
@@ -24,27 +24,108 @@ def sweep(vdrive):
     raise common.Infra("too many blocking functions: " + ",".join(skip))
 
 
+def val(v):
+    """Tagged value of the specification / projected value of the harness -> comparable python value."""
+    k = v.get("k")
+    if k == "int":
+        return v["v"]
+    if k == "nil":
+        return None
+    if k == "key":
+        return ":" + v["v"]
+    if k == "sym":
+        return v["v"]
+    if k == "list":
+        r = [val(x) for x in v["v"]]
+        return r if r else None
+    return ("?", json.dumps(v, sort_keys=True))
+
+
+def judge_call(exp, r, redefined):
+    """'' or the reason the observed outcomes of one call are not what the lambda list prescribes."""
+    paths = ["direct", "funcall", "apply"] + (["old", "site"] if redefined else [])
+    for path in paths:
+        c = r[path]
+        if c.get("fault"):
+            return f"{path}: internal fault {c['st']}"
+        if not exp["ok"]:
+            if not c["st"]:
+                return f"{path}: call that must be rejected ({exp['why']}) returned {val(c['v'])}"
+            continue
+        if c["st"]:
+            if exp["alt"]:
+                continue            # an undeclared keyword may be rejected
+            return f"{path}: signalled {c['st']}"
+        got = val(c["v"]) or []
+        if got != [val(x) for x in exp["vals"]] and got != [val(x) for x in exp["vals2"]]:
+            return f"{path}: parameters bound to {got}, want {[val(x) for x in exp['vals']]}"
+    # the function that ignores its parameters: it must run exactly when the binding succeeds
+    c = r["const"]
+    if not exp["ok"] and exp["why"] != "default-form-error" and not c["st"]:
+        return f"a call that must be rejected ({exp['why']}) ran the body"
+    if exp["ok"] and not exp["alt"] and (c["st"] or val(c["v"]) != 42):
+        return f"the body did not run: {c['st']} {c.get('v')}"
+    return ""
+
+
 def run(tier, seed):
     rep = common.Report(PROP, tier, seed)
     vdrive = common.build_harness()
-    events, skipped = sweep(vdrive)
-    events = [dict(e, t=i + 1) for i, e in enumerate(events) if not e.get("hang")]
-    res = pipeline.accept(SPEC, "Arity", "Arity.cfg", events, shards=4, key="t")
     findings = {f["feature"]: f for f in common.load_findings(PROP) if f.get("status") == "open"}
-    hit = {}
+    # ---- part 1: binding -------------------------------------------------------------------------------------
+    quick = tier == "quick"
+    rows, g = gen.bfs(SPEC, "LambdaList", "LambdaList.cfg", {"Kinds": "{0, 2, 3}" if quick else "{0, 1, 2, 3}", "MaxPos": 4 if quick else 5},
+                      timeout=3000)
+    groups, order = {}, []
+    for r in rows:
+        key = json.dumps([r["ll"], None if r["prev"]["none"] else r["prev"]["ll"]], sort_keys=True)
+        if key not in groups:
+            groups[key] = {"id": len(order) + 1, "ll": r["ll"], "prev": None if r["prev"]["none"] else r["prev"]["ll"], "calls": [], "exp": []}
+            order.append(key)
+        groups[key]["calls"].append({"args": r["args"]})
+        groups[key]["exp"].append(r["exp"])
+    stimuli = [groups[k] for k in order]
+    events = pipeline.drive(vdrive, "c04bind", [{k: s[k] for k in ("id", "ll", "prev", "calls")} for s in stimuli], chunk=60)
+    by_t = {e["t"]: e for e in events}
+    ncalls = 0
+    for s in stimuli:
+        ev = by_t[s["id"]]
+        if ev["defst"]:
+            rep.violation({"property": PROP, "shape": s["ll"], "prev": s["prev"], "reason": "defun failed: " + ev["defst"]},
+                          f"defun with lambda list shape {s['ll']} failed: {ev['defst']}")
+            continue
+        for call, exp, r in zip(s["calls"], s["exp"], ev["res"]):
+            ncalls += 1
+            why = judge_call(exp, r, s["prev"] is not None)
+            if why:
+                rep.violation({"property": PROP, "shape": s["ll"], "prev": s["prev"], "args": call["args"], "expected": exp, "observed": r, "reason": why},
+                              f"lambda list {s['ll']}{' (redefined from ' + json.dumps(s['prev']) + ')' if s['prev'] else ''} called with "
+                              f"{[val(a) for a in call['args']]}: {why}")
+    # ---- part 2: documented arity of every built-in ----------------------------------------------------------
+    aev, skipped = sweep(vdrive)
+    aev = [dict(e, t=i + 1) for i, e in enumerate(aev) if not e.get("hang")]
+    res = pipeline.accept(SPEC, "Arity", "Arity.cfg", aev, shards=4, key="t")
+    listed = {(x["fn"], x["n"], x["why"]) for x in json.load(open(os.path.join(SPEC, "arity-known.json")))} if ARITY_FEATURE in findings else set()
+    hit = 0
     for b in res["bad"]:
-        feat = f"arity:{b['fn']}/{b['n']}"
-        if feat in findings:
-            hit[feat] = b
+        if (b["fn"], b["n"], b["why"]) in listed:
+            hit += 1
         else:
             rep.violation({"property": PROP, "function": b["fn"], "n": b["n"], "why": b["why"], "event": b["event"]},
                           f"{b['fn']} with {b['n']} arguments: {b['why']} (documented ({' '.join(b['event']['ll'])}))")
-    for feat in hit:
-        rep.known.append(findings[feat]["summary"])
-    fns = {e["fn"] for e in events}
-    rep.cov.update({"states": res["states"], "transitions": res["lines"], "traces_validated_against_impl": len(events),
-                    "evaluations": len(events), "distinct_nontrivial": len(fns), "exhaustive": True,
-                    "rule": "every function of every linked package except a deny-list, called with n = 0..max+2 inert arguments; "
-                            "distinct = functions; the arity relation is computed by TLC from the documented lambda list",
-                    "samples": events[:3], "skipped_blocking": skipped, "faults_seen": sum(1 for e in events if e["out"] == "fault")})
+    if hit:
+        rep.known.append(findings[ARITY_FEATURE]["summary"] + f" ({hit} of the {len(listed)} listed (function, count) pairs reproduced)")
+    fns = {e["fn"] for e in aev}
+    rep.cov.update({"states": g["generated"] + res["states"], "transitions": len(rows) + res["lines"],
+                    "traces_validated_against_impl": ncalls + len(aev), "evaluations": ncalls + len(aev),
+                    "distinct_nontrivial": len(rows) + len(fns), "exhaustive": True,
+                    "rule": f"(1) every lambda-list shape (0-2 required x 0-2 optional x rest x 0-2 keys x aux, default kinds none / form / form using "
+                            f"an earlier parameter{'' if quick else ' / literal'}) x every call (0-{4 if quick else 5} positional, <=2 keyword pairs over "
+                            "two declared and one undeclared key, with / without a dangling keyword), through a direct call, funcall and apply, plus a body "
+                            "that ignores its parameters; and the same for functions redefined from another lambda list, called through call sites "
+                            "compiled before the redefinition; expected bindings computed by TLC from LambdaList.tla (Bind); "
+                            f"(2) all {len(fns)} registered functions of all packages called with n = 0..max+2 arguments of the documented types; the "
+                            "TLA+ acceptor Arity derives the arity relation from the documented lambda list. distinct = binding rows + functions",
+                    "samples": [{"ll": stimuli[len(stimuli) // 2]["ll"], "call": stimuli[len(stimuli) // 2]["calls"][3], "expected": stimuli[len(stimuli) // 2]["exp"][3]}, aev[0]],
+                    "skipped_blocking": skipped, "faults_seen": sum(1 for e in aev if e["out"] == "fault")})
     return rep.finish()
